@@ -99,3 +99,121 @@ Example C01_render_items_ex :
    end) /\
   ref_items [] (fun _ => None) 0 (fun _ _ => None) items (abs c) = (expected, abs c, SNone).
 Proof. vm_compute. repeat split; reflexivity. Qed.
+
+(* ---- the parser's clean-up of the source (Model/Preproc.v, Proofs/PreprocProofs.v): comments and,
+        unless formatting is kept, line breaks with their indentation are removed, nothing else ---- *)
+From DT Require Import Model.Preproc Proofs.PreprocProofs.
+
+(* the fuel of the comment scanner is never exhausted *)
+Theorem C01_comments_fuel_suffices : forall s n, length s < n -> cut_comments_fuel n s = cut_comments s.
+Proof. exact comments_fuel_suffices. Qed.
+Print Assumptions C01_comments_fuel_suffices.
+
+(* no '{' immediately followed by '#': nothing is a comment, and with keepFmt the parser sees the
+   source unchanged *)
+Theorem C01_no_comment_opener_identity : forall s, no_opener s = true -> cut_comments s = s.
+Proof. exact no_opener_identity. Qed.
+Print Assumptions C01_no_comment_opener_identity.
+
+Theorem C01_keep_fmt_source_unchanged : forall s, no_opener s = true -> preprocess true s = s.
+Proof. exact keep_fmt_without_opener. Qed.
+Print Assumptions C01_keep_fmt_source_unchanged.
+
+(* a comment after text without opener is removed, the text before it is kept as it is, the
+   scan goes on behind it *)
+Theorem C01_comment_removed : forall a c b,
+  no_opener a = true -> forallb (fun x => negb (beqb x b_hash)) c = true ->
+  cut_comments (a ++ [b_lbrace; b_hash] ++ c ++ [b_hash; b_rbrace] ++ b) = a ++ cut_comments b.
+Proof. exact comment_removed. Qed.
+Print Assumptions C01_comment_removed.
+
+(* (no '{' in front at all is a special case of "no opener in front") *)
+Theorem C01_no_lbrace_no_opener : forall a, forallb (fun x => negb (beqb x b_lbrace)) a = true -> no_opener a = true.
+Proof. exact no_lbrace_no_opener. Qed.
+Print Assumptions C01_no_lbrace_no_opener.
+
+(* the no-match case of `{#[^#]*#}`: the first '#' after the opener is missing, is the last byte,
+   or is not followed by '}': the '{' is kept and the scan resumes one byte later *)
+Theorem C01_unterminated_comment_kept : forall r1,
+  match after_hash r1 with
+  | Some (e :: _) => beqb e b_rbrace = false
+  | _ => True
+  end ->
+  cut_comments (b_lbrace :: b_hash :: r1) = b_lbrace :: cut_comments (b_hash :: r1).
+Proof. exact unterminated_comment_kept. Qed.
+Print Assumptions C01_unterminated_comment_kept.
+
+Example C01_unterminated_comment_example :
+  cut_comments ["{";"#";"a";"{";"#";"b";"#";"}";"c"]%byte = ["{";"#";"a";"c"]%byte.
+Proof. exact unterminated_example. Qed.
+
+(* one pass only (like ReplaceAll): removing a comment can form a new one from the bytes around it *)
+Example C01_cut_comments_one_pass_example :
+  cut_comments s_nested = ["{";"#";"x";"#";"}"]%byte /\ cut_comments (cut_comments s_nested) = [].
+Proof. exact not_idempotent_example. Qed.
+
+Theorem C01_cut_comments_not_idempotent : ~ (forall s, cut_comments (cut_comments s) = cut_comments s).
+Proof. exact cut_comments_idempotent_refuted. Qed.
+Print Assumptions C01_cut_comments_not_idempotent.
+
+(* line breaks: none is left ... *)
+Theorem C01_cut_fmt_no_line_feed : forall s k, ~ In b_lf (cut_fmt_go k s).
+Proof. exact cut_fmt_go_no_lf. Qed.
+Print Assumptions C01_cut_fmt_no_line_feed.
+
+Theorem C01_cut_fmt_trimmed_no_line_feed : forall s, ~ In b_lf (cut_fmt s).
+Proof. exact cut_fmt_no_lf. Qed.
+Print Assumptions C01_cut_fmt_trimmed_no_line_feed.
+
+(* ... text without line break is untouched ... *)
+Theorem C01_cut_fmt_identity_without_line_feed : forall s, ~ In b_lf s -> cut_fmt_go false s = s.
+Proof. exact cut_fmt_go_identity. Qed.
+Print Assumptions C01_cut_fmt_identity_without_line_feed.
+
+(* ... and a line break disappears together with the indentation after it, nothing else does *)
+Theorem C01_cut_fmt_line_break_and_indentation : forall a ws c r,
+  ~ In b_lf a -> Forall (fun x => is_re_space x = true) ws -> is_re_space c = false ->
+  cut_fmt_go false (a ++ b_lf :: ws ++ c :: r) = a ++ c :: cut_fmt_go false r.
+Proof. exact cut_fmt_line_break_and_indentation. Qed.
+Print Assumptions C01_cut_fmt_line_break_and_indentation.
+
+Theorem C01_cut_fmt_go_idempotent : forall k s, cut_fmt_go false (cut_fmt_go k s) = cut_fmt_go k s.
+Proof. exact cut_fmt_go_idempotent. Qed.
+Print Assumptions C01_cut_fmt_go_idempotent.
+
+Theorem C01_trim_idempotent : forall s, trim (trim s) = trim s.
+Proof. exact trim_idempotent. Qed.
+Print Assumptions C01_trim_idempotent.
+
+Theorem C01_cut_fmt_idempotent : forall s, cut_fmt (cut_fmt s) = cut_fmt s.
+Proof. exact cut_fmt_idempotent. Qed.
+Print Assumptions C01_cut_fmt_idempotent.
+
+(* Trim(" \t\n"): the text is its trimmed part between two runs of such bytes, and the trimmed
+   part neither starts nor ends with one *)
+Theorem C01_trim_is_infix : forall s,
+  exists p q, s = p ++ trim s ++ q /\ all_trim p /\ all_trim q /\
+              starts_ok (trim s) = true /\ starts_ok (rev (trim s)) = true.
+Proof. exact trim_is_infix. Qed.
+Print Assumptions C01_trim_is_infix.
+
+(* nothing is ever added or reordered by the clean-up *)
+Theorem C01_cut_comments_sublist : forall s, subseq (cut_comments s) s.
+Proof. exact cut_comments_subseq. Qed.
+Print Assumptions C01_cut_comments_sublist.
+
+Theorem C01_cut_fmt_go_sublist : forall s k, subseq (cut_fmt_go k s) s.
+Proof. exact cut_fmt_go_subseq. Qed.
+Print Assumptions C01_cut_fmt_go_sublist.
+
+Theorem C01_trim_sublist : forall s, subseq (trim s) s.
+Proof. exact trim_subseq. Qed.
+Print Assumptions C01_trim_sublist.
+
+Theorem C01_preprocess_sublist : forall k s, subseq (preprocess k s) s.
+Proof. exact preprocess_subseq. Qed.
+Print Assumptions C01_preprocess_sublist.
+
+Theorem C01_text_view_sublist : forall k t, subseq (text_view k t) t.
+Proof. exact text_view_subseq. Qed.
+Print Assumptions C01_text_view_sublist.
